@@ -9,6 +9,7 @@
  */
 #define VF_PROP "C04"
 #include "vf_common.h"
+#include <math.h>
 #include "a/vec.h"
 #include "a/buf.h"
 #include <limits.h>
@@ -2235,6 +2236,112 @@ static uint64_t vf_ncases(int tier) { return tier ? 1200000 : 6000; }
 
 static void small_case(uint64_t c, vf_rng *r);
 
+/* =====================================================================================================
+ * SORT AGAINST AN ADVERSARY.  Random and structured arrangements never drive a quicksort-family algorithm into its degenerate path (a depth
+ * budget running out, a fallback algorithm taking over), because that takes an arrangement built against the pivot rule. McIlroy's adversary
+ * ("A killer adversary for quicksort", 1999) builds it on the fly for ANY such rule: the elements are indices into a value table whose entries
+ * start undecided ("gas") and are frozen to increasing values only when a comparison forces a decision, always such that the pivot candidate
+ * turns out small. Every answer it gives is consistent with the total order on the FINAL values, so a correct sort - whatever its algorithm -
+ * must deliver that order. The final values, in the original positions, are then sorted again as plain integers by the vector and the buffer
+ * (the same algorithm meets the same bad arrangement without the adversary). Seeded change C04-M: an introsort whose heap-sort fallback is
+ * handed a last-element distance as a count leaves one element unsorted - in 2e7 random and 2e5 structured sorts the fallback never ran. */
+static int *aq_val, *aq_low, aq_nsolid, aq_gas, aq_cand;
+static uint64_t aq_ncmp;
+static int aq_cmp(void const *px, void const *py)
+{
+    int const x = *(int const *)px, y = *(int const *)py;
+    ++aq_ncmp;
+    if (aq_val[x] == aq_gas && aq_val[y] == aq_gas) { if (x == aq_cand) { aq_val[x] = aq_nsolid++; } else { aq_val[y] = aq_nsolid++; } }
+    if (aq_val[x] == aq_gas) { aq_cand = x; if (aq_val[y] != aq_gas && aq_low[x] < aq_val[y]) { aq_low[x] = aq_val[y]; } }
+    else if (aq_val[y] == aq_gas) { aq_cand = y; if (aq_low[y] < aq_val[x]) { aq_low[y] = aq_val[x]; } }
+    return cmp_result((aq_val[x] > aq_val[y]) - (aq_val[x] < aq_val[y]));
+}
+static int aq_plain(void const *px, void const *py) { return cmp_result((*(int const *)px > *(int const *)py) - (*(int const *)px < *(int const *)py)); }
+static void adversary_sort(vf_rng *r)
+{
+    static size_t const sizes[] = {17, 40, 57, 64, 100, 129, 300, 1000, 1025, 5000, 20000};
+    size_t const n = vf_chance(r, 1, 3) ? 2 + (size_t)vf_below(r, 3000) : sizes[vf_below(r, sizeof(sizes) / sizeof(sizes[0]))];
+    int const is_buf = (int)vf_below(r, 2);
+    a_vec v;
+    a_buf *b = NULL;
+    int *p, *killer;
+    aq_val = (int *)malloc(n * sizeof(int));
+    killer = (int *)malloc(n * sizeof(int));
+    aq_gas = (int)n - 1;
+    aq_nsolid = 0;
+    aq_cand = 0;
+    aq_ncmp = 0;
+    aq_low = (int *)malloc(n * sizeof(int));
+    for (size_t i = 0; i < n; ++i) { aq_val[i] = aq_gas; aq_low[i] = -1; }
+    vf_log("sort of %zu elements against the adversary comparator (%s)", n, is_buf ? "a_buf_sort" : "a_vec_sort");
+    if (is_buf)
+    {
+        b = (a_buf *)malloc(sizeof(a_buf) + n * sizeof(int));
+        a_buf_ctor(b, sizeof(int), n);
+        for (size_t i = 0; i < n; ++i) { *(int *)a_buf_push_back(b) = (int)i; }
+        a_buf_sort(b, aq_cmp);
+        p = (int *)a_buf_ptr(b);
+    }
+    else
+    {
+        a_vec_ctor(&v, sizeof(int));
+        for (size_t i = 0; i < n; ++i) { *(int *)a_vec_push_back(&v) = (int)i; }
+        a_vec_sort(&v, aq_cmp);
+        p = (int *)a_vec_ptr(&v);
+    }
+    /* the final order: a decided element has twice its value; an element still undecided at the end was only ever declared GREATER than decided ones,
+       and gets the smallest key consistent with every answer given (just above the largest of them; below everything if it was never compared at
+       all). For a correct sort this IS the largest key: it cannot place the element without having compared it with something at least as large
+       as every other element. An element the sort never looked at therefore shows up as out of place. */
+    for (size_t i = 0; i < n; ++i) { aq_val[i] = aq_val[i] == aq_gas ? 2 * aq_low[i] + 1 : 2 * aq_val[i]; }
+    aq_gas = INT_MIN; /* nothing is undecided any more */
+    ++vf.evals;
+    VF_COUNT("sort-against-an-adversary-comparator");
+    vf_max_dyn("adversary-sort-comparisons-per-n-log2-n", (double)aq_ncmp / ((double)n * (log((double)n) / log(2.0))), "");
+    {
+        unsigned char *seen = (unsigned char *)calloc(n, 1);
+        int bad = 0;
+        for (size_t i = 0; i < n && !bad; ++i)
+        {
+            if (p[i] < 0 || (size_t)p[i] >= n || seen[p[i]]++) { vf_viol("sort/adversary/not-a-permutation", "n=%zu: position %zu holds %d", n, i, p[i]); bad = 1; }
+            else if (i && aq_val[p[i - 1]] > aq_val[p[i]]) { vf_viol("sort/adversary/not-sorted", "n=%zu (%s): positions %zu and %zu hold values %d and %d under the order every answer of the comparator was consistent with", n, is_buf ? "a_buf_sort" : "a_vec_sort", i - 1, i, aq_val[p[i - 1]], aq_val[p[i]]); bad = 1; }
+        }
+        free(seen);
+    }
+    memcpy(killer, aq_val, n * sizeof(int)); /* the arrangement the adversary arrived at: value of the element that started at position i */
+    /* ... replayed as plain integers through both containers */
+    for (int k = 0; k < 2; ++k)
+    {
+        if (k)
+        {
+            a_buf *const b2 = (a_buf *)malloc(sizeof(a_buf) + n * sizeof(int));
+            a_buf_ctor(b2, sizeof(int), n);
+            for (size_t i = 0; i < n; ++i) { *(int *)a_buf_push_back(b2) = killer[i]; }
+            a_buf_sort(b2, aq_plain);
+            p = (int *)a_buf_ptr(b2);
+            for (size_t i = 1; i < n; ++i) { if (p[i - 1] > p[i]) { vf_viol("sort/adversary-arrangement/not-sorted", "a_buf_sort of the %zu integers the adversary arrived at: positions %zu and %zu hold %d and %d", n, i - 1, i, p[i - 1], p[i]); break; } }
+            free(b2);
+        }
+        else
+        {
+            a_vec v2;
+            a_vec_ctor(&v2, sizeof(int));
+            for (size_t i = 0; i < n; ++i) { *(int *)a_vec_push_back(&v2) = killer[i]; }
+            a_vec_sort(&v2, aq_plain);
+            p = (int *)a_vec_ptr(&v2);
+            for (size_t i = 1; i < n; ++i) { if (p[i - 1] > p[i]) { vf_viol("sort/adversary-arrangement/not-sorted", "a_vec_sort of the %zu integers the adversary arrived at: positions %zu and %zu hold %d and %d", n, i - 1, i, p[i - 1], p[i]); break; } }
+            a_vec_dtor(&v2, NULL);
+        }
+        ++vf.evals;
+        VF_COUNT("sort-of-the-arrangement-the-adversary-arrived-at");
+    }
+    if (is_buf) { free(b); } else { a_vec_dtor(&v, NULL); }
+    free(aq_val);
+    free(aq_low);
+    free(killer);
+    aq_val = NULL;
+}
+
 static void vf_case(uint64_t c, vf_rng *r)
 {
     cmp_style = (int)(vf_hash64(vf.seed * 0x9E3779B97F4A7C15ULL + 0xC04, c) & 3);
@@ -2242,6 +2349,7 @@ static void vf_case(uint64_t c, vf_rng *r)
     vf_log("comparators of this case return %s", cmp_style_name[cmp_style]);
     surf_on = 0;
     form_used = NULL;
+    if (c % 8 == 3) { vf_rng ar; vf_rng_seed(&ar, vf.seed, vf_hash_str("C04-adversary"), c); adversary_sort(&ar); }
     if (is_large_case(c)) { large_case(c, r); }
     else if (is_wide_case(c)) { wide_case(c, r); }
     else
